@@ -223,7 +223,9 @@ def run_case(case, policy=None, max_steps=20000):
             def on_isconn(v, err=None):
                 if err is None:
                     log.add('isconn', v=bool(v))
-                    log.sync('isconn')      # the new value is visible from here on: other threads may act on it
+                    if not v:       # the new value is visible from here on: other threads may act on it.  (Not after
+                        log.sync('isconn')      # `True`: connectStart reads `_last_error` next, and the model decides
+                                                # about the callbacks AT this event — see design_notes, "limits")
             io.addCallback('is_connected', on_isconn)
             for name in case.get('callbacks') or ():
                 keep = not name.startswith('once')      # a callback returning False is removed after its first run
@@ -752,7 +754,7 @@ def run(ctx):
         s, out = run_case(case, policy)
         return s, out
 
-    nexplore = ctx.budget(110, 2500)
+    nexplore = ctx.budget(110, 500)
     for ci, case in enumerate(catalogue()):
         n = 0
         for prefix, s, out in explore_levels(lambda pol, case=case: one(case, pol), 2, nexplore, rng):
@@ -762,12 +764,12 @@ def run(ctx):
     for c in corpus:
         s, out = one(c['case'], ReplayThenDefault(c.get('choices') or []))
         runs.append((c['case'], [x[1] for x in s.choices], out))
-    for _ in range(ctx.budget(380, 6000)):
+    for _ in range(ctx.budget(380, 2500)):
         case = gen_case(rng)
         for _ in range(2):
             s, out = one(case, RandomPolicy(rng, rng.choice([0.1, 0.3, 0.6])))
             runs.append((case, [c[1] for c in s.choices], out))
-    for _ in range(ctx.budget(12, 300)):
+    for _ in range(ctx.budget(12, 200)):
         case = realpoll_case(rng)
         s, out = one(case, RandomPolicy(rng, rng.choice([0.0, 0.2, 0.5])))
         runs.append((case, [c[1] for c in s.choices], out))
